@@ -82,6 +82,20 @@ def robustness_inputs(ctx, n):
         else:
             toks = [rng.choice(TOKPOOL + ["a", "b", "T", "(", ")", "sizeof", "+", "-", "&", "?", "->", "++", "case", "default", "while", "for", "do", "else", "goto", "switch", "_Generic", "__attribute__", "typeof", "0x1F", "'c'"]) for _ in range(rng.randrange(1, 40))]
             out.append(("token-soup", " ".join(toks).encode()))
+    # directive and expansion-marker lines (the lexer interprets them itself)
+    DIRS = ["#", "# 1", "# 1 \"f.c\"", "#line 7", "#line 7 \"g.c\" 3", "# line", "#include <x.h>", "#define A(x) x", "# expansion", "# expansion begin", "# expansion begin 1 , 2",
+            "# expansion begin 1 , 2 ~ 3 4 : 5", "# expansion begin 1 , 2 foo", "# expansion begin 1 , 2 ~", "# expansion begin 1 , 2 ~ 99999999999", "# expansion begin 1 , 2 7 :",
+            "# expansion begin 1 , 2 ~ 0xFFFFFFFFFFFFFFFF 3 : 4 ~ 2", "# expansion end", "# expansion other", "%: 5", "??= 5"]
+    for i in range(len(out)):
+        if rng.random() < 0.12:
+            kind, data = out[i]
+            lines = data.split(b"\n")
+            for _ in range(rng.randrange(1, 4)):
+                d = rng.choice(DIRS).encode()
+                if rng.random() < 0.3:
+                    d = d[:rng.randrange(len(d) + 1)]
+                lines.insert(rng.randrange(len(lines) + 1), d)
+            out[i] = (kind + "+directive", b"\n".join(lines))
     # an ambiguous statement makes the disambiguation pass walk the whole (possibly damaged) tree: plant one in a third of the inputs
     AMBIG = [b" x * y ; ", b" (x) * (y) ; ", b" x ( y ) ; ", b" sizeof ( x ) ; ", b" (x) - (y) ; ", b" (x) & (y) ; ", b" (x)(y) ; ", b" _Alignof ( x ) ; "]
     for i, (kind, data) in enumerate(out):
@@ -206,7 +220,7 @@ def run(ctx):
     ctx.cov.update({
         "evaluations": len(pc) + total, "distinct_nontrivial": len({(t, tuple(o)) for t, o in pc}) + total,
         "traces_validated_against_impl": len(pc), "exhaustive": False,
-        "rule": "protocol: all sequences of 1..3 cursor operations over 9 operations on 12 token strings + seeded random sequences on ~70 more (real Parser vs Lean model, %d traces); robustness: %s inputs (a third of them with an ambiguous statement planted after a random brace so that the disambiguation pass walks the tree; valid, truncated at random offsets, token-mutated, byte-mutated, unterminated literal/comment/directive tails, invalid UTF-8 incl. truncated sequences at the end, nesting within the declared limits, token soup) x random ParseOptions (dialect, 31 switches, comment mode, disambiguation mode, keyword recognition) x syntax category x builds %s, each parsed, fully traversed and asked first/last token of every node; non-trivial = every robustness input counts (distinct random data)"
+        "rule": "protocol: all sequences of 1..3 cursor operations over 9 operations on 12 token strings + seeded random sequences on ~70 more (real Parser vs Lean model, %d traces); robustness: %s inputs (an eighth with directive / expansion-marker lines inserted, a third of them with an ambiguous statement planted after a random brace so that the disambiguation pass walks the tree; valid, truncated at random offsets, token-mutated, byte-mutated, unterminated literal/comment/directive tails, invalid UTF-8 incl. truncated sequences at the end, nesting within the declared limits, token soup) x random ParseOptions (dialect, 31 switches, comment mode, disambiguation mode, keyword recognition) x syntax category x builds %s, each parsed, fully traversed and asked first/last token of every node; non-trivial = every robustness input counts (distinct random data)"
                 % (len(pc), total, [f for f, _ in plan]),
         "samples": [plines[5], str(metas[0][3][:120]), str(metas[-1][3][:120])],
     })
